@@ -186,11 +186,14 @@ def run(repo, tier) -> Result:
             res.fail("R-FINITE", finding("C10", "R-FINITE", ca.fn, p.node, f"OBV returns {p.ret!r}", construct="OBV value"))
     ca = analyse_class(repo, by["Counter"])
     prev = mk_rd(SELF, T - ONE)
+    from ..rules_vn import expand_cases
+
     for p in ca.paths:
-        if isinstance(p.ret, Num) and (p.ret.f.is_zero() or p.ret.f == ONE or p.ret.f == prev + ONE or p.ret.f == prev):
-            res.ok("R-FINITE", {"class": "Counter", "value": repr(p.ret.f)}, nontrivial=f"Counter:{p.ret.f!r}")
-        else:
-            res.fail("R-FINITE", finding("C10", "R-FINITE", ca.fn, p.node, f"Counter returns {p.ret!r}: it must reset to 0, stay, or grow by exactly one", construct=f"Counter value {p.ret!r}"[:150]))
+        for _f, ret, _w in expand_cases(tuple(p.state.facts), p.ret, {}):
+            if isinstance(ret, Num) and (ret.f.is_zero() or ret.f == ONE or ret.f == prev + ONE or ret.f == prev):
+                res.ok("R-FINITE", {"class": "Counter", "value": repr(ret.f)}, nontrivial=f"Counter:{ret.f!r}")
+            else:
+                res.fail("R-FINITE", finding("C10", "R-FINITE", ca.fn, p.node, f"Counter returns {ret!r}: it must reset to 0, stay, or grow by exactly one", construct=f"Counter value {ret!r}"[:150]))
     # ---- intervals
     ca1 = analyse_class(repo, by["RSI"])
     ca = signs.analyse(by["RSI"])
